@@ -11,6 +11,7 @@ import Lattigo.Model.Params
     genmoduli root=<LogNthRoot> logQ=<ivec> logP=<ivec>→ ok Q=<vec> P=<vec> | err:<cls> | panic | hang
     rlwe_new logN= root= rt= Q= P= LogQ= LogP= xs=<def|H:h> xe=<def|G:s>
                                                        → accept Q= P= nthroot= | err:<cls> | panic | hang
+    rlwe_direct logN= rt= Q= P=                        → rlwe.NewParameters called directly: accept … | err:<cls>
     ckks_new  (same keys) lds=<LogDefaultScale>        → idem, plus err:logDefaultScale
     bgv_new logN= rt= Q= P= t=                         → accept nT= slots= logslots= qmul= | err:<cls>
     derived logN= rt= Q= P= lds= ks=<ivec> is=<b:n;…> tr=<ivec>
@@ -168,6 +169,12 @@ def handle (toks : List String) : String :=
     match parseLiteral? rest with
     | some lit => showRes showAccepted (newParametersFromLiteral goOracle driverFuel lit)
     | none => badOp
+  | "rlwe_direct" :: rest =>
+    match ((kv? rest "logN").bind String.toInt?, (kv? rest "rt").bind String.toNat?,
+           (kv? rest "Q").bind parseVec?, (kv? rest "P").bind parseVec?) with
+    | (some logN, some rt, some q, some p) =>
+      showRes showAccepted (newParameters goOracle logN q p rt false false)
+    | _ => badOp
   | "ckks_new" :: rest =>
     match (parseLiteral? rest, (kv? rest "lds").bind String.toInt?) with
     | (some lit, some lds) => showRes showAccepted (ckksNewFromLiteral goOracle driverFuel lit lds)
